@@ -149,7 +149,7 @@ func lateEntrant(c *vkit.Case) {
 
 func lateSnap() (n, parked int, raw string) {
 	for _, g := range vkit.Goroutines() {
-		if !g.In("main.lateEntrant") && !g.In("main.bcastOverlap") {
+		if !g.In("main.lateEntrant") && !g.In("main.bcastOverlap") && !g.In("main.genMix") {
 			continue
 		}
 		if !inWait(g) {
@@ -326,4 +326,114 @@ func deadlineEntry(c *vkit.Case) {
 		}
 		r.Count("deadline-entry", "context error without the lock", 1)
 	}
+}
+
+// genMix: waiters of two generations. k waiters release the lock and are held in the window (or
+// parked); a Broadcast is issued (it is theirs: all k must return nil); THEN one more waiter
+// enters Wait and is held in the window (or parked); ONE Signal is sent — the only goroutine that
+// still needs a wake-up is the newcomer, the first generation has already been woken by the
+// Broadcast even though it has not yet got round to noticing; then every gate opens. All k+1 must
+// return nil.
+func genMix(c *vkit.Case) {
+	r := c.R
+	rnd := c.Rand
+	k := rnd.Range(1, 3)
+	total := k + 1
+	parkOld := rnd.Bool(0.3)
+	gl := &gateLocker{current: -1, gated: true, pert: vkit.NewPerturber(rnd.Split(), 7, 0.3)}
+	for i := 0; i < total; i++ {
+		gl.reached = append(gl.reached, make(chan struct{}))
+		gl.gates = append(gl.gates, make(chan struct{}))
+	}
+	cond := xsync.NewContextCond(gl)
+	var nils atomic.Int64
+	var wg sync.WaitGroup
+	ctx, cancel := context.WithCancel(context.Background())
+	defer cancel()
+	start := func(i int) bool {
+		wg.Add(1)
+		go func() {
+			defer wg.Done()
+			gl.Lock()
+			gl.current = i
+			if err := cond.Wait(ctx); err == nil {
+				nils.Add(1)
+				gl.current = -1
+				gl.mu.Unlock()
+			}
+		}()
+		return awaitChan(gl.reached[i])
+	}
+	openAll := func() {
+		for i := range gl.gates {
+			select {
+			case <-gl.gates[i]:
+			default:
+				close(gl.gates[i])
+			}
+		}
+	}
+	finish := func() {
+		cancel()
+		cond.Broadcast()
+		openAll()
+		done := make(chan struct{})
+		go func() { wg.Wait(); close(done) }()
+		vkit.Await(done, vkit.AwaitOpts{Soft: 5 * time.Second, Gap: 200 * time.Millisecond, Hard: 30 * time.Second})
+	}
+	for i := 0; i < k; i++ {
+		if !start(i) {
+			r.Inconclusive("gen-mix: waiter did not enter")
+			finish()
+			return
+		}
+	}
+	if parkOld {
+		// an old waiter that is PARKED would return at once on the Broadcast; keep the first one in
+		// the window and park the others
+		for i := 1; i < k; i++ {
+			close(gl.gates[i])
+		}
+		if k > 1 && !waitParked(k-1) {
+			r.Inconclusive("gen-mix: old waiters not parked")
+			finish()
+			return
+		}
+	}
+	cond.Broadcast()
+	if !start(k) {
+		r.Inconclusive("gen-mix: newcomer did not enter")
+		finish()
+		return
+	}
+	cond.Signal()
+	openAll()
+	ok := func() bool { return int(nils.Load()) >= total }
+	t0 := time.Now()
+	for !ok() && time.Since(t0) < 2*time.Second {
+		time.Sleep(50 * time.Microsecond)
+	}
+	r.Eval(1)
+	r.Count("gen-mix", "rounds", 1)
+	if !ok() {
+		stuck := false
+		var dump string
+		hard := time.Now().Add(60 * time.Second)
+		for time.Now().Before(hard) && !ok() {
+			n1, p1, a := lateSnap()
+			time.Sleep(200 * time.Millisecond)
+			n2, p2, b := lateSnap()
+			if n1 > 0 && n1 == p1 && n2 == p2 && a == b && !ok() {
+				stuck, dump = true, b
+				break
+			}
+		}
+		if stuck {
+			c.Violation("signal-missed", fmt.Sprintf("gen-mix: %d waiter(s) had released the lock, a Broadcast was issued (theirs), then one more waiter entered Wait and ONE Signal was sent (nobody else still needed a wake-up): only %d of %d goroutines returned nil, the rest is parked in Wait", k, nils.Load(), total),
+				map[string]any{"goroutines": dump})
+		} else if !ok() {
+			r.Inconclusive("gen-mix: neither woken nor provably parked")
+		}
+	}
+	finish()
 }
